@@ -17,6 +17,19 @@ package main
 // a slice it handed out (Bytes, Next): both are treated as copies. Memory exhaustion
 // (ErrTooLarge panics) is not modelled.
 
+// Byte-level model of *os.File contents (data file): per file object f
+//
+//	fdata(f, i)   the byte at absolute position i
+//	fsize(f)      the file size
+//	fpos(f)       the position of sequential reads (binary.Read(f, ...))
+//
+// WriteAt(p, off) either fails (non-nil error; the bytes in [off, off+len(p)) and the size become
+// unknown, everything else stays) or stores p at off and returns (len(p), nil). ReadAt(p, off)
+// either fails with an arbitrary error (p unknown) or copies the min(len(p), fsize-off) bytes at
+// off into p and returns io.EOF iff fewer than len(p) bytes were available. Trusted: that the
+// operating system behaves like this (no crash, no concurrent writer - those are C02-C04's
+// quantifiers, not decided here).
+
 import (
 	"fmt"
 	"go/types"
@@ -237,18 +250,39 @@ func (v *Verifier) bytesOfBuffer(st *State, in ssa.Instruction, x ssa.Value) (st
 	if key != "bytes.(*Buffer).Bytes" {
 		return "", false
 	}
-	var prev ssa.Instruction
+	// between the Bytes() call and its use nothing may touch the buffer: no other call gets the
+	// buffer (or the slice) as an argument and no bytes/binary function is called
+	src := call.Common().Args[0]
+	seen := false
 	for _, x := range in.Block().Instrs {
-		if _, dbg := x.(*ssa.DebugRef); dbg {
+		if x == ssa.Instruction(call) {
+			seen = true
 			continue
 		}
 		if x == in {
-			if prev == ssa.Instruction(call) {
-				return v.operand(st, call.Common().Args[0]).T, true
+			if seen {
+				return v.operand(st, src).T, true
 			}
 			return "", false
 		}
-		prev = x
+		if !seen {
+			continue
+		}
+		if c2, ok := x.(*ssa.Call); ok {
+			k2, _ := v.calleeKey(c2.Common())
+			if strings.HasPrefix(k2, "bytes.") || strings.HasPrefix(k2, "binary.") || k2 == "" {
+				return "", false
+			}
+			for _, a := range c2.Common().Args {
+				if a == src || a == ssa.Value(call) {
+					return "", false
+				}
+			}
+		}
+		switch x.(type) {
+		case *ssa.Store, *ssa.MapUpdate, *ssa.Go, *ssa.Defer, *ssa.RunDefers:
+			return "", false
+		}
 	}
 	return "", false
 }
@@ -480,5 +514,173 @@ func init() {
 		maps[gBufW] = srtII
 		maps[gBufD] = srtIII
 		return false
+	}
+}
+
+const (
+	gFData = "G!fdata"
+	gFSize = "G!fsize"
+	gFPos  = "G!fpos"
+)
+
+func isOSFilePtr(t types.Type) bool {
+	p, ok := t.Underlying().(*types.Pointer)
+	if !ok {
+		return false
+	}
+	n, ok := p.Elem().(*types.Named)
+	return ok && n.Obj().Pkg() != nil && n.Obj().Pkg().Path() == "os" && n.Obj().Name() == "File"
+}
+
+type fileView struct {
+	ref        string
+	d, sz, pos string
+}
+
+func (v *Verifier) fileGet(st *State, ref string) fileView {
+	v.env.noteMapType(gFSize, types.Typ[types.Int], "field")
+	v.env.noteMapType(gFPos, types.Typ[types.Int], "field")
+	f := fileView{ref: ref}
+	f.d = v.env.ctx.resolveSel(v.env.heapGet(st, gFData, srtIII), ref)
+	f.sz = v.env.ctx.resolveSel(v.env.heapGet(st, gFSize, srtII), ref)
+	f.pos = v.env.ctx.resolveSel(v.env.heapGet(st, gFPos, srtII), ref)
+	st.assume(and("(<= 0 "+f.sz+")", "(<= 0 "+f.pos+")"))
+	return f
+}
+
+func (v *Verifier) fileSet(st *State, name, srt, ref, val string) {
+	v.env.heapSet(st, name, srt, sto(v.env.heapGet(st, name, srt), ref, val))
+}
+
+func init() {
+	byteMap := elemMapNameT(types.Typ[types.Uint8])
+	errT := types.Universe.Lookup("error").Type()
+	fileMods := func(extra ...string) func(v *Verifier, c *ssa.CallCommon, maps map[string]string) bool {
+		return func(v *Verifier, c *ssa.CallCommon, maps map[string]string) bool {
+			for _, e := range extra {
+				switch e {
+				case gFData, byteMap:
+					maps[e] = srtIII
+				default:
+					maps[e] = srtII
+				}
+			}
+			return false
+		}
+	}
+	nativeStubs["os.(*File).WriteAt"] = func(v *Verifier, st *State, in ssa.Instruction, c *ssa.CallCommon, args []Value, retT types.Type) Value {
+		ref := args[0].T
+		v.checkSite(st, in, "nil", "(not (= "+ref+" 0))", "WriteAt on a nil *os.File")
+		f := v.fileGet(st, ref)
+		p, off := args[1], args[2].T
+		v.checkSite(st, in, "explicit", "(>= "+off+" 0)", "WriteAt with a negative offset (returns an error; treated as a defect)")
+		ln := sliceLen(p.T)
+		fail := v.env.ctx.freshConst("io.fail", "Bool")
+		v.env.noteMapType(byteMap, types.Typ[types.Uint8], "elem")
+		E := v.env.heapGet(st, byteMap, srtIII)
+		nd := v.env.ctx.freshConst("fdata.w", srtII)
+		unk := v.env.ctx.freshConst("fdata.unk", srtII)
+		src := sel2(sel2(E, sliceBase(p.T)), "(+ "+sliceOff(p.T)+" (- k! "+off+"))")
+		if bref, ok := v.bytesOfBuffer(st, in, c.Args[1]); ok {
+			// file.WriteAt(buf.Bytes(), off): the bytes come straight from the buffer
+			ob := v.bufGet(st, bref)
+			src = sel2(ob.d, "(+ "+ob.r+" (- k! "+off+"))")
+		}
+		st.assume("(forall ((k! Int)) (! (= (select " + nd + " k!) (ite (and (<= " + off + " k!) (< k! (+ " + off + " " + ln + "))) (ite " + fail + " (select " + unk + " k!) " + src + ") (select " + f.d + " k!))) :pattern ((select " + nd + " k!))))")
+		v.fileSet(st, gFData, srtIII, ref, nd)
+		nsz := v.env.ctx.freshConst("fsize", "Int")
+		end := "(+ " + off + " " + ln + ")"
+		st.assume(ite(fail, "(>= "+nsz+" 0)", eq(nsz, ite("(> "+end+" "+f.sz+")", end, f.sz))))
+		v.fileSet(st, gFSize, srtII, ref, nsz)
+		e := v.env.freshErr(st)
+		n := v.env.ctx.freshConst("io.n", "Int")
+		st.assume("(and (<= 0 " + n + ") (<= " + n + " " + ln + "))")
+		tup := retT.(*types.Tuple)
+		return Value{Tuple: []Value{{T: ite(fail, n, ln), Sort: "Int", GoT: tup.At(0).Type()}, {T: ite(fail, e.T, "VNil"), Sort: "Val", GoT: errT}}, GoT: retT}
+	}
+	nativeMods["os.(*File).WriteAt"] = fileMods(gFData, gFSize)
+
+	nativeStubs["os.(*File).ReadAt"] = func(v *Verifier, st *State, in ssa.Instruction, c *ssa.CallCommon, args []Value, retT types.Type) Value {
+		ref := args[0].T
+		v.checkSite(st, in, "nil", "(not (= "+ref+" 0))", "ReadAt on a nil *os.File")
+		f := v.fileGet(st, ref)
+		p, off := args[1], args[2].T
+		want := sliceLen(p.T)
+		fail := v.env.ctx.freshConst("io.fail", "Bool")
+		avail := v.env.ctx.freshConst("io.avail", "Int")
+		st.assume(eq(avail, ite("(> "+f.sz+" "+off+")", "(- "+f.sz+" "+off+")", "0")))
+		n := v.env.ctx.freshConst("io.n", "Int")
+		st.assume(ite(fail, and("(<= 0 "+n+")", "(<= "+n+" "+want+")"), eq(n, ite("(< "+avail+" "+want+")", avail, want))))
+		v.env.noteMapType(byteMap, types.Typ[types.Uint8], "elem")
+		E := v.env.heapGet(st, byteMap, srtIII)
+		na := v.env.ctx.freshConst("readbytes", srtII)
+		unk := v.env.ctx.freshConst("readbytes.unk", srtII)
+		so := sliceOff(p.T)
+		src := sel2(f.d, "(+ "+off+" (- k! "+so+"))")
+		old := sel2(sel2(E, sliceBase(p.T)), "k!")
+		st.assume("(forall ((k! Int)) (! (= (select " + na + " k!) (ite (and (<= " + so + " k!) (< k! (+ " + so + " " + want + "))) (ite " + fail + " (select " + unk + " k!) (ite (< k! (+ " + so + " " + n + ")) " + src + " " + old + ")) " + old + ")) :pattern ((select " + na + " k!))))")
+		st.assume("(forall ((k! Int)) (! (and (<= 0 (select " + unk + " k!)) (<= (select " + unk + " k!) 255)) :pattern ((select " + unk + " k!))))")
+		v.env.heapSet(st, byteMap, srtIII, sto(E, sliceBase(p.T), na))
+		ioPkg := v.prog.typPkgs["io"]
+		eof := v.env.globalValue(st, "io", ioPkg.Scope().Lookup("EOF").(*types.Var))
+		e := v.env.freshErr(st)
+		tup := retT.(*types.Tuple)
+		errV := ite(fail, e.T, ite("(< "+n+" "+want+")", eof.T, "VNil"))
+		return Value{Tuple: []Value{{T: n, Sort: "Int", GoT: tup.At(0).Type()}, {T: errV, Sort: "Val", GoT: errT}}, GoT: retT}
+	}
+	nativeMods["os.(*File).ReadAt"] = fileMods(byteMap)
+
+	// binary.Read from an *os.File: a sequential read of a fixed-width value at fpos
+	oldRead := nativeStubs["binary.Read"]
+	oldReadMods := nativeMods["binary.Read"]
+	nativeStubs["binary.Read"] = func(v *Verifier, st *State, in ssa.Instruction, c *ssa.CallCommon, args []Value, retT types.Type) Value {
+		if !isOSFilePtr(staticArgType(c.Args[0])) {
+			return oldRead(v, st, in, c, args, retT)
+		}
+		mi, ok := c.Args[2].(*ssa.MakeInterface)
+		if !ok {
+			return oldRead(v, st, in, c, args, retT)
+		}
+		pt, ok := mi.X.Type().Underlying().(*types.Pointer)
+		if !ok {
+			return oldRead(v, st, in, c, args, retT)
+		}
+		n, signed, isBool := fixedWidth(pt.Elem())
+		if n == 0 {
+			return oldRead(v, st, in, c, args, retT)
+		}
+		ref := v.bufRefArg(st, c, args, 0)
+		v.checkSite(st, in, "nil", "(not (= "+ref+" 0))", "binary.Read from a nil *os.File")
+		f := v.fileGet(st, ref)
+		p := v.operand(st, mi.X)
+		fail := v.env.ctx.freshConst("io.fail", "Bool")
+		okc := and(not(fail), "(>= (- "+f.sz+" "+f.pos+") "+intLit(int64(n))+")")
+		byteAt := func(i int) string { return sel2(f.d, add(f.pos, intLit(int64(i)))) }
+		for i := 0; i < n; i++ {
+			st.assume("(and (<= 0 " + byteAt(i) + ") (<= " + byteAt(i) + " 255))")
+		}
+		old := v.loadAddr(st, p, in)
+		srt := v.env.sr.sortOf(pt.Elem())
+		cst := v.env.ctx.freshConst("read", srt)
+		st.assume(eq(cst, ite(okc, leDecode(n, signed, isBool, byteAt), old.T)))
+		v.storeAddr(st, p, Value{T: cst, Sort: srt, GoT: pt.Elem()}, in)
+		np := v.env.ctx.freshConst("fpos", "Int")
+		st.assume(ite(okc, eq(np, add(f.pos, intLit(int64(n)))), "(>= "+np+" "+f.pos+")"))
+		v.fileSet(st, gFPos, srtII, ref, np)
+		e := v.env.freshErr(st)
+		return Value{T: ite(okc, "VNil", e.T), Sort: "Val", GoT: errT}
+	}
+	nativeMods["binary.Read"] = func(v *Verifier, c *ssa.CallCommon, maps map[string]string) bool {
+		if isOSFilePtr(staticArgType(c.Args[0])) {
+			maps[gFPos] = srtII
+			if mi, ok := c.Args[2].(*ssa.MakeInterface); ok {
+				if pt, ok := mi.X.Type().Underlying().(*types.Pointer); ok {
+					v.storeTargets(mi.X, pt.Elem(), maps)
+					return false
+				}
+			}
+			return true
+		}
+		return oldReadMods(v, c, maps)
 	}
 }
